@@ -5,7 +5,7 @@ import (
 	"math/big"
 
 	"github.com/aergoio/aergo/v2/contract/name"
-		"github.com/aergoio/aergo/v2/fee"
+	"github.com/aergoio/aergo/v2/fee"
 	"github.com/aergoio/aergo/v2/state"
 	"github.com/aergoio/aergo/v2/state/statedb"
 	"github.com/aergoio/aergo/v2/types"
@@ -73,9 +73,26 @@ func vfLgGovTx(w *vfLedger, bi *types.BlockHeaderInfo, rcpt int, payload string,
 }
 
 // shapes: 0 stake, 1 unstake (fresh storage), 2 createName (no owner), 3 setOwner(B), 4 setOwner(sender),
-// 5 createName after owner := B, 6 createName after owner := sender, 7 stake then (system balance arbitrary) unstake
+// 5 createName after owner := B, 6 createName after owner := sender, 7 stake then (system balance arbitrary) unstake,
+// 8 updateName(N -> B) of a name the sender registered in an earlier block (no owner of aergo.name),
+// 9 the same after owner := B in this block, 10 createName when an EARLIER block set owner := B,
+// 11 updateName when an earlier block set owner := B.
+// "after owner := X" (5, 6, 9): name.SetContractOwner ran earlier in the same block (staged storage); 10, 11: the owner
+// entry is in the committed storage of aergo.name.
+var vfLgGovNames = []string{"stake", "unstake-fresh", "createName", "setOwner-other", "setOwner-self", "createName.owner-set",
+	"createName.owner-is-sender", "unstake", "updateName", "updateName.owner-set", "createName.owner-committed", "updateName.owner-committed"}
+
 func vfLgGov(mode int, ob string) {
-	shape := vfLgPick("gov", vf.Param("govMask", 0xff), 8)
+	shape := vfLgPick("gov", vf.Param("govMask", 0xfff), 12)
+	vfLgNames = nil
+	switch shape {
+	case 8, 9:
+		vfLgNames = []vfLgNameEntry{{vfLgTheName, vfLgSender, vfLgSender}}
+	case 10:
+		vfLgNames = []vfLgNameEntry{{types.AergoName, vfLgOther, vfLgName}}
+	case 11:
+		vfLgNames = []vfLgNameEntry{{types.AergoName, vfLgOther, vfLgName}, {vfLgTheName, vfLgSender, vfLgSender}}
+	}
 	ver := int32(vfLgPick("ver", vf.Param("verMask", 0x1c), 6))
 	fee.DisableZeroFee()
 	pubNet = true
@@ -89,12 +106,12 @@ func vfLgGov(mode int, ob string) {
 
 	// set-up of the name owner for shapes 5/6 through the real name.SetContractOwner (moves the name account's
 	// balance to the owner and stages the name storage); done BEFORE the pre-observation
-	if shape == 5 || shape == 6 {
+	if shape == 5 || shape == 6 || shape == 9 {
 		nmAcc, err := vfLgAccount(w, vfLgName)
 		if err != nil {
 			vf.Fail("harness-setup")
 		}
-		scs, _ := statedb.OpenContractState(nmAcc.ID(), nmAcc.State(), w.bs.StateDB)
+		scs, _ := statedb.OpenContractState(nmAcc.IDNoPadding(), nmAcc.State(), w.bs.StateDB)
 		ownerAddr := addrB
 		if shape == 6 {
 			ownerAddr = addrA
@@ -117,8 +134,10 @@ func vfLgGov(mode int, ob string) {
 		rcpt, payload = vfLgSystem, `{"Name":"v1stake"}`
 	case 1:
 		rcpt, payload = vfLgSystem, `{"Name":"v1unstake"}`
-	case 2, 5, 6:
+	case 2, 5, 6, 10:
 		rcpt, payload = vfLgName, `{"Name":"v1createName","Args":["`+vfLgTheName+`"]}`
+	case 8, 9, 11:
+		rcpt, payload = vfLgName, `{"Name":"v1updateName","Args":["`+vfLgTheName+`","`+addrB+`"]}`
 	case 3:
 		rcpt, payload = vfLgName, `{"Name":"v1setOwner","Args":["`+addrB+`"]}`
 	case 4:
@@ -180,50 +199,51 @@ func vfLgGov(mode int, ob string) {
 		return
 	}
 	vf.Reach(ob + ".success")
+	vf.Reach(ob + ".success." + vfLgGovNames[shape]) // every shape must have a successful execution (vacuity)
 	// governance is free of charge: no fee, no reward
-	vf.Assert(dReward.Sign() == 0, ob)
-	vf.Assert(len(rc.FeeUsed) == 0, ob)
+	vf.Assert(dReward.Sign() == 0, ob+".free")
+	vf.Assert(len(rc.FeeUsed) == 0, ob+".free")
 	// F14: v1setOwner with the sender itself as new owner: the credit of the name account's balance to the owner is
 	// overwritten by executeTx's later sender.PutState()
 	f14 := shape == 4
-	vf.AssertKnown(post.acc.sum().Cmp(pre.acc.sum()) == 0, ob, "F14-setowner-self-burns-name-balance", f14)
-	vf.Assert(post.acc.nonce[vfLgSender] == body.Nonce, ob)
-	vf.Assert(post.acc.same(pre.acc, vfLgBystander), ob)
-	vf.Assert(post.acc.same(pre.acc, vfLgVault), ob)
+	vf.AssertKnown(post.acc.sum().Cmp(pre.acc.sum()) == 0, ob+".sum", "F14-setowner-self-burns-name-balance", f14)
+	vf.Assert(post.acc.nonce[vfLgSender] == body.Nonce, ob+".nonce")
+	vf.Assert(post.acc.same(pre.acc, vfLgBystander), ob+".bystander")
+	vf.Assert(post.acc.same(pre.acc, vfLgVault), ob+".bystander")
 	amt := body.GetAmountBigInt()
 	lostA := new(big.Int).Sub(pre.acc.bal[vfLgSender], post.acc.bal[vfLgSender])
 	switch shape {
 	case 0:
 		// stake: A -> aergo.system, staking total grows by the same amount
-		vf.Assert(lostA.Cmp(amt) == 0, ob)
-		vf.Assert(new(big.Int).Sub(post.acc.bal[vfLgSystem], pre.acc.bal[vfLgSystem]).Cmp(amt) == 0, ob)
+		vf.Assert(lostA.Cmp(amt) == 0, ob+".move")
+		vf.Assert(new(big.Int).Sub(post.acc.bal[vfLgSystem], pre.acc.bal[vfLgSystem]).Cmp(amt) == 0, ob+".move")
 		dTotal := new(big.Int).Sub(new(big.Int).SetBytes(post.total), new(big.Int).SetBytes(pre.total))
-		vf.Assert(dTotal.Cmp(amt) == 0, ob)
-		vf.Assert(post.acc.same(pre.acc, vfLgName), ob)
+		vf.Assert(dTotal.Cmp(amt) == 0, ob+".move")
+		vf.Assert(post.acc.same(pre.acc, vfLgName), ob+".move")
 	case 7:
 		// unstake: aergo.system -> A of the actual adjustment; total shrinks by the same amount
 		gain := new(big.Int).Neg(lostA)
-		vf.Assert(new(big.Int).Sub(pre.acc.bal[vfLgSystem], post.acc.bal[vfLgSystem]).Cmp(gain) == 0, ob)
+		vf.Assert(new(big.Int).Sub(pre.acc.bal[vfLgSystem], post.acc.bal[vfLgSystem]).Cmp(gain) == 0, ob+".move")
 		dTotal := new(big.Int).Sub(new(big.Int).SetBytes(pre.total), new(big.Int).SetBytes(post.total))
-		vf.Assert(dTotal.Cmp(gain) == 0, ob)
-		vf.Assert(gain.Sign() >= 0, ob)
-	case 2:
+		vf.Assert(dTotal.Cmp(gain) == 0, ob+".move")
+		vf.Assert(gain.Sign() >= 0, ob+".move")
+	case 2, 8:
 		// name fee: A -> aergo.name
-		vf.Assert(lostA.Cmp(amt) == 0, ob)
-		vf.Assert(new(big.Int).Sub(post.acc.bal[vfLgName], pre.acc.bal[vfLgName]).Cmp(amt) == 0, ob)
-	case 5:
+		vf.Assert(lostA.Cmp(amt) == 0, ob+".move")
+		vf.Assert(new(big.Int).Sub(post.acc.bal[vfLgName], pre.acc.bal[vfLgName]).Cmp(amt) == 0, ob+".move")
+	case 5, 9, 10, 11:
 		// name fee: A -> owner B
-		vf.Assert(lostA.Cmp(amt) == 0, ob)
-		vf.Assert(new(big.Int).Sub(post.acc.bal[vfLgOther], pre.acc.bal[vfLgOther]).Cmp(amt) == 0, ob)
-		vf.Assert(post.acc.same(pre.acc, vfLgName), ob)
+		vf.Assert(lostA.Cmp(amt) == 0, ob+".move")
+		vf.Assert(new(big.Int).Sub(post.acc.bal[vfLgOther], pre.acc.bal[vfLgOther]).Cmp(amt) == 0, ob+".move")
+		vf.Assert(post.acc.same(pre.acc, vfLgName), ob+".move")
 	case 6:
 		// the sender owns the name contract: pays itself
-		vf.Assert(lostA.Sign() == 0, ob)
+		vf.Assert(lostA.Sign() == 0, ob+".move")
 	case 3:
 		// owner B receives the whole balance of aergo.name
-		vf.Assert(post.acc.bal[vfLgName].Sign() == 0, ob)
-		vf.Assert(new(big.Int).Sub(post.acc.bal[vfLgOther], pre.acc.bal[vfLgOther]).Cmp(pre.acc.bal[vfLgName]) == 0, ob)
-		vf.Assert(lostA.Sign() == 0, ob)
+		vf.Assert(post.acc.bal[vfLgName].Sign() == 0, ob+".move")
+		vf.Assert(new(big.Int).Sub(post.acc.bal[vfLgOther], pre.acc.bal[vfLgOther]).Cmp(pre.acc.bal[vfLgName]) == 0, ob+".move")
+		vf.Assert(lostA.Sign() == 0, ob+".move")
 	}
 	vf.Observe("outcome", rc.Status)
 }
@@ -234,4 +254,3 @@ func vfLgAccount(w *vfLedger, i int) (*state.AccountState, error) {
 
 func VF_C01_b()     { vfLgGov(1, "C01.b") }
 func VF_C03_a_gov() { vfLgGov(2, "C03.a.gov") }
-
